@@ -11,7 +11,8 @@
                                   (external write n -> n, gateway write k -> 100 + k, 0 = none), del = tombstone / absent,
                                   ux = version of the user xattr (0 = none)
          meta  sync metadata (xattrs _sync, _vv, _mou) or NoMeta:  syncCas (_sync.cas), crc (body id whose checksum is stored,
-               0 = the checksum of a delete), ucrc (user-xattr version whose checksum is stored), revs (sequence of [p, body, del]; a revision's id is its position), cur,
+               0 = the checksum of a delete), ucrc (user-xattr version whose checksum is stored), revs (sequence of
+               [p, body, del]; a revision's id is its position), cur,
                seq (how many sequences the document has carried), cv (version id: an import mints the cas of the mutation it
                imports, a gateway write mints 1000 + n), mouCas / mouPcas (_mou.cas / _mou.pCas, 0 = no _mou)
          pcF / pcG / pcW   control state of the feed import / gateway read / gateway write in flight ("idle", "imp" = parked
